@@ -3,7 +3,7 @@
 From Coq Require Import ZArith List Bool Sorted.
 From Bluge Require Import Base.Res Base.Corr Base.UTF8 Gen.ParamsAnalysis
   Analysis.Pipeline Analysis.PipelineProofs Analysis.Tokenizers Analysis.TokenizersProofs
-  Analysis.Filters Analysis.FiltersProofs Analysis.ShingleProofs Analysis.ReverseProofs Analysis.Freq Analysis.FreqProofs Analysis.ExamplesProofs.
+  Analysis.Filters Analysis.FiltersProofs Analysis.ShingleProofs Analysis.ReverseProofs Analysis.Filters2 Analysis.Filters2Proofs Analysis.CharFilters Analysis.CharFiltersProofs Analysis.Freq Analysis.FreqProofs Analysis.ExamplesProofs.
 Import ListNotations.
 Open Scope Z_scope.
 
@@ -190,6 +190,134 @@ Print Assumptions shingle_preserves_refuted.
 Theorem shingle_max_zero_refuted : exists mn mx oo sep fill ts, shingle_filter mn mx oo sep fill ts = Panic 5.
 Proof. exact shingle_max_zero_panics. Qed.
 Print Assumptions shingle_max_zero_refuted.
+
+(* ---------- further exactly modelled filters (Filters2.v), as repaired ---------- *)
+
+(* camelcase.go (+ parser, states): for every classification of the runes (IsLower, IsUpper,
+   IsNumber) the repaired filter (offsets kept inside the source token, fefca47) preserves the
+   contract; it is a structurally recursive function of the stream: total and deterministic *)
+Theorem camel_preserves : forall (is_lower is_upper is_number : Z -> bool) L ts,
+  tok_ok L ts -> tok_ok L (camel_filter is_lower is_upper is_number true ts).
+Proof. exact camel_preserves_all. Qed.
+Print Assumptions camel_preserves.
+
+(* the offsets as computed before the repair (clamp = false) break it: "\xff\xff" gives End 6 on 2 bytes *)
+Theorem camel_pinned_refuted :
+  exists L ts, tok_ok L ts /\ ~ tok_ok L (camel_filter (fun _ => false) (fun _ => false) (fun _ => false) false ts).
+Proof. exact camel_unclamped_refuted_w. Qed.
+Print Assumptions camel_pinned_refuted.
+
+Example camel_example :
+  camel_filter ex_ascii_lower ex_ascii_upper ex_ascii_digit true
+               [Tk 3 16 [72;84;84;80;83;101;114;118;101;114;50;71;111] 1 0 false]
+  = [Tk 3 7 [72;84;84;80] 1 0 false; Tk 7 13 [83;101;114;118;101;114] 1 0 false;
+     Tk 13 14 [50] 1 0 false; Tk 14 16 [71;111] 1 0 false].
+Proof. exact ex_camel. Qed.
+Print Assumptions camel_example.
+
+(* dict.go: every dictionary, every size parameter, longest-match or not *)
+Theorem dict_compound_preserves : forall (in_dict : list Z -> bool) min_word min_sub max_sub only_longest L,
+  preserves L (dict_filter in_dict min_word min_sub max_sub only_longest true).
+Proof. exact dict_preserves_all. Qed.
+Print Assumptions dict_compound_preserves.
+
+Theorem dict_compound_total : forall (in_dict : list Z -> bool) min_word min_sub max_sub only_longest clamp,
+  0 <= min_sub -> total_filter (dict_filter in_dict min_word min_sub max_sub only_longest clamp).
+Proof. exact dict_total_all. Qed.
+Print Assumptions dict_compound_total.
+
+(* before d348d1a (rune-counted offsets from the token start, clamp = false): term "abc" on a
+   one-byte span with dictionary {"c"} gives a sub-word [2,3) on a 1-byte text *)
+Theorem dict_compound_pinned_refuted :
+  exists L ts out,
+    tok_ok L ts /\ dict_filter (zlist_eqb [99]) 1 1 1 false false ts = Ok out /\ ~ tok_ok L out.
+Proof. exact dict_unclamped_refuted_w. Qed.
+Print Assumptions dict_compound_pinned_refuted.
+
+(* outside the parameter range: a negative minimum sub-word size panics *)
+Theorem dict_compound_negative_min_refuted :
+  exists ts, dict_filter (fun _ => true) 1 (-1) 1 false true ts = Panic 6.
+Proof. exact dict_negative_min_sub_panics. Qed.
+Print Assumptions dict_compound_negative_min_refuted.
+
+Example dict_compound_example :
+  dict_filter (fun w => zlist_eqb w [115;111;102;116] || zlist_eqb w [98;97;108;108]) 5 2 15 false true
+              [Tk 0 8 [115;111;102;116;98;97;108;108] 1 0 false]
+  = Ok [Tk 0 8 [115;111;102;116;98;97;108;108] 1 0 false; Tk 0 4 [115;111;102;116] 0 0 false;
+        Tk 4 8 [98;97;108;108] 0 0 false].
+Proof. exact ex_dict. Qed.
+Print Assumptions dict_compound_example.
+
+(* cjk_bigram.go (rune widths from the bytes e95f6cc, offsets inside the source token 943dd1b),
+   with and without unigrams; total and deterministic by construction *)
+Theorem bigram_preserves : forall (output_unigram : bool) L ts,
+  tok_ok L ts -> tok_ok L (bigram_filter output_unigram true ts).
+Proof. exact bigram_preserves_all. Qed.
+Print Assumptions bigram_preserves.
+
+(* before 943dd1b: an ideographic token [1,4) whose term was rewritten to three U+FFFD *)
+Theorem bigram_pinned_refuted :
+  exists L ts, tok_ok L ts /\ ~ tok_ok L (bigram_filter false false ts).
+Proof. exact bigram_unclamped_refuted_w. Qed.
+Print Assumptions bigram_pinned_refuted.
+
+Example bigram_example :
+  bigram_filter false true [Tk 0 7 [230;188;162; 229;173;151; 120] 1 tt_ideographic false]
+  = [Tk 0 6 [230;188;162; 229;173;151] 1 tt_double false; Tk 3 7 [229;173;151; 120] 1 tt_double false].
+Proof. exact ex_bigram. Qed.
+Print Assumptions bigram_example.
+
+(* cjk_width.go over its own tables (kanaNorm, kanaCombineVoiced, kanaCombineHalfVoiced, T-gen):
+   no table index leaves its table on any byte string *)
+Theorem width_preserves : forall L kn cv ch, preserves L (width_filter kn cv ch).
+Proof. exact width_preserves_all. Qed.
+Print Assumptions width_preserves.
+
+Theorem width_total : total_filter (width_filter cjk_kana_norm cjk_combine_voiced cjk_combine_half_voiced).
+Proof. exact width_total_all. Qed.
+Print Assumptions width_total.
+
+Example width_example :
+  width_term cjk_kana_norm cjk_combine_voiced cjk_combine_half_voiced [239;189;182; 239;190;158] = Ok [227;130;172].
+Proof. exact ex_width. Qed.
+Print Assumptions width_example.
+
+(* possessive_filter_en.go *)
+Theorem possessive_preserves : forall L ts, tok_ok L ts -> tok_ok L (possessive_filter ts).
+Proof. exact possessive_preserves_all. Qed.
+Print Assumptions possessive_preserves.
+
+Example possessive_example : possessive_term [74;111;104;110;226;128;153;115] = [74;111;104;110].
+Proof. exact ex_possessive. Qed.
+Print Assumptions possessive_example.
+
+(* ---------- character filters ---------- *)
+
+(* asciifolding.go: the switch of foldToASCII is the table ascii_fold_table (1242 case values,
+   regenerated from the Go AST on every run); every case extends the output slice by one less
+   than the runes it writes and writes 1..maxRuneExpansion runes (checked by computation) ... *)
+Theorem ascii_fold_table_wellformed : fold_table_ok ascii_fold_table ascii_fold_max_expansion = true.
+Proof. exact ascii_fold_table_shape. Qed.
+Print Assumptions ascii_fold_table_wellformed.
+
+(* ... hence the filter returns on every byte string: no write past the output slice, no
+   extension past its capacity *)
+Theorem ascii_fold_total : forall input : list Z, exists out, ascii_fold input = Ok out.
+Proof. exact ascii_fold_total_all. Qed.
+Print Assumptions ascii_fold_total.
+
+Example ascii_fold_example : ascii_fold [195;134;111;110;32;239;172;129;120] = Ok [65;69;111;110;32;102;105;120].
+Proof. exact ex_ascii_fold. Qed.
+Print Assumptions ascii_fold_example.
+
+(* zerowidthnonjoiner.go: a total function of the bytes that never grows the text *)
+Theorem zwnj_no_growth : forall input : list Z, len (zwnj_filter input) <= len input.
+Proof. exact zwnj_no_growth_all. Qed.
+Print Assumptions zwnj_no_growth.
+
+Example zwnj_example : zwnj_filter [217;133;226;128;140;255;120] = [217;133;32;255;120].
+Proof. exact ex_zwnj. Qed.
+Print Assumptions zwnj_example.
 
 (* the filters that drop tokens carry the increments over: every surviving token keeps the
    absolute position it had (PositionIncr is not lost) *)
